@@ -34,7 +34,7 @@ def variants():
     """(description for the model, constructor) of table variants"""
     names = ["t", "u", "T"]
     schemas = [None, "s", ["db", "s"], Q.Schema("s"), Q.Schema("s", parent=Q.Schema("db")), Q.Database("db").s, "S"]
-    aliases = [None, "a", "t"]
+    aliases = [None, "a", "t", ""]
     out = []
     for n, s, al in itertools.product(names, schemas, aliases):
         for temporal in (None, "for", "portion"):
@@ -95,6 +95,13 @@ def graph_refs(x, seen=None, depth=0, stop_at_statements=True, top=True):
             fields |= f
             tables |= t
     return fields, tables
+
+
+def sstr(e):
+    try:
+        return str(e)[:160]
+    except Exception as ex:  # noqa  (an object that cannot be rendered still has references)
+        return "<%s: %s>" % (type(e).__name__, type(ex).__name__)
 
 
 def tkey(t):
@@ -210,10 +217,10 @@ def cases(run, rng):
                 SEEN["fields"] += 1
                 if got_f != exp_f:
                     FAIL.append({"kind": "fields_() misses or invents references", "class": cls.__name__, "slot": sn, "missing": sorted(map(str, exp_f - got_f)),
-                                 "extra": sorted(map(str, got_f - exp_f)), "sql": str(e)[:160]})
+                                 "extra": sorted(map(str, got_f - exp_f)), "sql": sstr(e)})
                 elif got_t != exp_t:
                     FAIL.append({"kind": "tables_ misses or invents tables", "class": cls.__name__, "slot": sn, "missing": sorted(map(str, exp_t - got_t)),
-                                 "extra": sorted(map(str, got_t - exp_t)), "sql": str(e)[:160]})
+                                 "extra": sorted(map(str, got_t - exp_t)), "sql": sstr(e)})
 
 
 class LazyViolations:
